@@ -571,6 +571,10 @@ CASES = [
         .capacity();""")]),
 
  # ---------------- C17
+ dict(name="c16-filesink-ctor-drops-override", ids=["C16"], rule="C16.R5b", subs=[("sinks/FileSink.h", "nullptr, config.override_pattern_formatter_options(), std::move(file_event_notifier)),", "nullptr, std::nullopt, std::move(file_event_notifier)),")]),
+ dict(name="c16-streamsink-ctor-drops-override", ids=["C16"], rule="C16.R5b", subs=[("sinks/StreamSink.h", "    : Sink(override_pattern_formatter_options),", "    : Sink(),")]),
+ dict(name="c16-consolesink-config-setter-noop", ids=["C16"], rule="C16.R5a", subs=[("sinks/ConsoleSink.h", "    _override_pattern_formatter_options = options;", "    (void)options;")]),
+ dict(name="c16-options-eq-ignores-multiline-flag", ids=["C16", "C12", "C13"], rule="R", subs=[("core/PatternFormatterOptions.h", " &&\n      add_metadata_to_multi_line_logs == other.add_metadata_to_multi_line_logs;", ";")]),
  dict(name="c17-get_number_of_loggers-no-lock", ids=["C17"], rule="C17.R1", subs=[(LM, """  QUILL_NODISCARD size_t get_number_of_loggers() const noexcept
   {
     LockGuard const lock{_spinlock};
@@ -1086,6 +1090,24 @@ CASES = [
  dict(name="c13-recalc-string-not-cleared", ids=["C13"], rule="C13.R4c", subs=[(SFH, "      _pre_formatted_ts.clear();\n      _cached_indexes.clear();", "      _cached_indexes.clear();")]),
  dict(name="c13-gmt-recalc-midnight-only", ids=["C13"], rule="C13.R4d", subs=[(SFH, "      time_info.tm_hour = 11;", "      time_info.tm_hour = 23;")]),
  dict(name="c13-seconds-of-day-without-minutes", ids=["C13"], rule="C13.R4f", subs=[(SFH, "static_cast<uint32_t>((time_info.tm_hour * 3600) + (time_info.tm_min * 60) + time_info.tm_sec);", "static_cast<uint32_t>((time_info.tm_hour * 3600) + (time_info.tm_min * 60));")]),
+ dict(name="c20-free-reads-length-from-offset-slot", ids=["C20"], rule="C20.R6b", subs=[(B, "    std::memcpy(&total_size, static_cast<std::byte*>(ptr) - sizeof(size_t), sizeof(total_size));", "    std::memcpy(&total_size, static_cast<std::byte*>(ptr) - (2u * sizeof(size_t)), sizeof(total_size));")]),
+ dict(name="c20-munmap-length-is-offset", ids=["C20"], rule="C20.R6b", subs=[(B, "    ::munmap(mem, total_size);", "    ::munmap(mem, offset);")]),
+ dict(name="c13-localtime_rs-calls-gmtime_r", ids=["C13"], rule="C13.R7a", subs=[("core/TimeUtilities.h", "  tm* res = localtime_r(timer, buf);", "  tm* res = gmtime_r(timer, buf);")]),
+ dict(name="c13-timegm-via-mktime", ids=["C13"], rule="C13.R7a", subs=[("core/TimeUtilities.h", "  time_t const ret_val = ::timegm(tm);", "  time_t const ret_val = ::mktime(tm);")]),
+ dict(name="c13-timegm-failure-returned", ids=["C13"], rule="C13.R7c", subs=[("core/TimeUtilities.h", """  if (QUILL_UNLIKELY(ret_val == (time_t)-1))
+  {
+    QUILL_THROW(QuillError{"timegm failed."});
+  }
+""", """  if (QUILL_UNLIKELY(ret_val == (time_t)-1))
+  {
+    return 0;
+  }
+""")]),
+ dict(name="c13-gmtime_rs-returns-null-on-failure", ids=["C13"], rule="C13.R7c", subs=[("core/TimeUtilities.h", """  tm* res = gmtime_r(timer, buf);
+  if (QUILL_UNLIKELY(!res))
+  {""", """  tm* res = gmtime_r(timer, buf);
+  if (QUILL_UNLIKELY(!res) && errno != EOVERFLOW)
+  {""")]),
  dict(name="c14-recover-ignores-extension", ids=["C14"], rule="C14.R5e", subs=[(RSH, """      // we need to recover the index from the existing files
       for (const auto& entry : fs::directory_iterator(fs::current_path() / filename.parent_path()))
       {
